@@ -53,6 +53,15 @@ module Coq__1 = struct
 end
 include Coq__1
 
+(** val sub : nat -> nat -> nat **)
+
+let rec sub n0 m =
+  match n0 with
+  | O -> n0
+  | S k -> (match m with
+            | O -> n0
+            | S l -> sub k l)
+
 module Nat =
  struct
   (** val eqb : nat -> nat -> bool **)
@@ -89,6 +98,17 @@ module Nat =
              | S n' -> S (div2 n'))
  end
 
+(** val nth : nat -> 'a1 list -> 'a1 -> 'a1 **)
+
+let rec nth n0 l default =
+  match n0 with
+  | O -> (match l with
+          | [] -> default
+          | x :: _ -> x)
+  | S m -> (match l with
+            | [] -> default
+            | _ :: t -> nth m t default)
+
 (** val nth_error : 'a1 list -> nat -> 'a1 option **)
 
 let rec nth_error l = function
@@ -110,6 +130,12 @@ let rec rev = function
 let rec map f = function
 | [] -> []
 | a :: t -> (f a) :: (map f t)
+
+(** val flat_map : ('a1 -> 'a2 list) -> 'a1 list -> 'a2 list **)
+
+let rec flat_map f = function
+| [] -> []
+| x :: t -> app (f x) (flat_map f t)
 
 (** val fold_left : ('a1 -> 'a2 -> 'a1) -> 'a2 list -> 'a1 -> 'a1 **)
 
@@ -2208,6 +2234,373 @@ let kv_gas_config =
     (XO (XI (XI (XI (XI XH))))))))))); g_write_byte = (Npos (XO (XI (XI (XI
     XH))))); g_iter_flat = (Npos (XO (XI (XI (XI XH))))) }
 
+(** val vget : (z * 'a1) list -> z -> 'a1 option **)
+
+let rec vget m v =
+  match m with
+  | [] -> None
+  | p0 :: r -> let (v0, x) = p0 in if Z.eqb v v0 then Some x else vget r v
+
+(** val vset : (z * 'a1) list -> z -> 'a1 -> (z * 'a1) list **)
+
+let rec vset m v x =
+  match m with
+  | [] -> (v, x) :: []
+  | p0 :: r ->
+    let (v0, y) = p0 in
+    if Z.eqb v v0
+    then (v, x) :: r
+    else if Z.ltb v v0 then (v, x) :: m else (v0, y) :: (vset r v x)
+
+(** val vdel : (z * 'a1) list -> z -> (z * 'a1) list **)
+
+let vdel m v =
+  filter (fun p0 -> negb (Z.eqb (fst p0) v)) m
+
+(** val vmax : (z * 'a1) list -> z **)
+
+let vmax m =
+  fold_left (fun acc p0 -> Z.max acc (fst p0)) m Z0
+
+(** val vhas : (z * 'a1) list -> z -> bool **)
+
+let vhas m v =
+  match vget m v with
+  | Some _ -> true
+  | None -> false
+
+(** val kv_eqb : kv -> kv -> bool **)
+
+let rec kv_eqb a b =
+  match a with
+  | [] -> (match b with
+           | [] -> true
+           | _ :: _ -> false)
+  | p0 :: a' ->
+    let (k1, v1) = p0 in
+    (match b with
+     | [] -> false
+     | p1 :: b' ->
+       let (k2, v2) = p1 in
+       (&&) ((&&) (beqb k1 k2) (beqb v1 v2)) (kv_eqb a' b'))
+
+type tree = { t_disk : (z * kv) list; t_work : kv; t_ver : z }
+
+(** val tree_empty : tree **)
+
+let tree_empty =
+  { t_disk = []; t_work = []; t_ver = Z0 }
+
+(** val save_version : tree -> tree option **)
+
+let save_version t =
+  let v = Z.add t.t_ver (Zpos XH) in
+  (match vget t.t_disk v with
+   | Some c ->
+     if kv_eqb c t.t_work
+     then Some { t_disk = t.t_disk; t_work = t.t_work; t_ver = v }
+     else None
+   | None ->
+     Some { t_disk = (vset t.t_disk v t.t_work); t_work = t.t_work; t_ver =
+       v })
+
+type dres =
+| DelOk of tree
+| DelMissing
+| DelLatest
+
+(** val delete_version : tree -> z -> dres **)
+
+let delete_version t v =
+  if negb (vhas t.t_disk v)
+  then DelMissing
+  else if Z.eqb v t.t_ver
+       then DelLatest
+       else DelOk { t_disk = (vdel t.t_disk v); t_work = t.t_work; t_ver =
+              t.t_ver }
+
+(** val load_version : (z * kv) list -> z -> tree option **)
+
+let load_version disk target =
+  if Z.eqb target Z0
+  then let v = vmax disk in
+       (match vget disk v with
+        | Some c -> Some { t_disk = disk; t_work = c; t_ver = v }
+        | None -> Some { t_disk = disk; t_work = []; t_ver = Z0 })
+  else (match vget disk target with
+        | Some c -> Some { t_disk = disk; t_work = c; t_ver = target }
+        | None -> None)
+
+type prune = { keep_recent : z; keep_every : z }
+
+(** val to_release : prune -> z -> z option **)
+
+let to_release p0 version =
+  let previous = Z.sub version (Zpos XH) in
+  if Z.ltb p0.keep_recent previous
+  then let r = Z.sub previous p0.keep_recent in
+       if (||) (Z.eqb p0.keep_every Z0)
+            (negb (Z.eqb (Z.rem r p0.keep_every) Z0))
+       then Some r
+       else None
+  else None
+
+(** val store_commit : prune -> tree -> (tree * tree list) option **)
+
+let store_commit p0 t =
+  match save_version t with
+  | Some t1 ->
+    (match to_release p0 t1.t_ver with
+     | Some r ->
+       (match delete_version t1 r with
+        | DelOk t2 -> Some (t2, (t1 :: (t2 :: [])))
+        | DelMissing -> Some (t1, (t1 :: []))
+        | DelLatest -> None)
+     | None -> Some (t1, (t1 :: [])))
+  | None -> None
+
+type hash = kv
+
+type cinfo = (bytes * (z * hash)) list
+
+type mstore = { ms_trees : (bytes * tree) list; ms_infos : (z * cinfo) list;
+                ms_latest : z; ms_last : (z * cinfo); ms_prune : prune;
+                ms_transient : (bytes * kv) list }
+
+(** val insert_info : (bytes * (z * hash)) -> cinfo -> cinfo **)
+
+let rec insert_info x l = match l with
+| [] -> x :: []
+| y :: r ->
+  (match bcompare (fst x) (fst y) with
+   | Gt -> y :: (insert_info x r)
+   | _ -> x :: l)
+
+(** val sort_infos : cinfo -> cinfo **)
+
+let sort_infos l =
+  fold_right insert_info [] l
+
+(** val commit_trees :
+    prune -> (bytes * tree) list -> nat option -> ((((bytes * tree)
+    list * cinfo) * nat option) * bool) option **)
+
+let rec commit_trees p0 ts budget =
+  match ts with
+  | [] -> Some ((([], []), budget), false)
+  | p1 :: r ->
+    let (name, t) = p1 in
+    (match store_commit p0 t with
+     | Some p2 ->
+       let (tfinal, units) = p2 in
+       let n0 = length units in
+       (match budget with
+        | Some b ->
+          if Nat.ltb b n0
+          then let t' = match b with
+                        | O -> t
+                        | S b' -> nth b' units t in
+               Some (((((name, t') :: r), []), (Some O)), true)
+          else (match commit_trees p0 r (Some (sub b n0)) with
+                | Some p3 ->
+                  let (p4, crashed) = p3 in
+                  let (p5, bl) = p4 in
+                  let (r', infos) = p5 in
+                  Some (((((name, tfinal) :: r'), ((name, (tfinal.t_ver,
+                  tfinal.t_work)) :: infos)), bl), crashed)
+                | None -> None)
+        | None ->
+          (match commit_trees p0 r None with
+           | Some p3 ->
+             let (p4, crashed) = p3 in
+             let (p5, bl) = p4 in
+             let (r', infos) = p5 in
+             Some (((((name, tfinal) :: r'), ((name, (tfinal.t_ver,
+             tfinal.t_work)) :: infos)), bl), crashed)
+           | None -> None))
+     | None -> None)
+
+(** val commit : mstore -> nat option -> (mstore * bool) option **)
+
+let commit ms budget =
+  let version = Z.add (fst ms.ms_last) (Zpos XH) in
+  (match commit_trees ms.ms_prune ms.ms_trees budget with
+   | Some p0 ->
+     let (p1, crashed) = p0 in
+     let (p2, bl) = p1 in
+     let (ts, infos) = p2 in
+     let flush =
+       match bl with
+       | Some n0 -> (match n0 with
+                     | O -> false
+                     | S _ -> true)
+       | None -> true
+     in
+     if (||) crashed (negb flush)
+     then Some ({ ms_trees = ts; ms_infos = ms.ms_infos; ms_latest =
+            ms.ms_latest; ms_last = ms.ms_last; ms_prune = ms.ms_prune;
+            ms_transient = ms.ms_transient }, true)
+     else Some ({ ms_trees = ts; ms_infos = (vset ms.ms_infos version infos);
+            ms_latest = version; ms_last = (version, (sort_infos infos));
+            ms_prune = ms.ms_prune; ms_transient =
+            (map (fun p3 -> ((fst p3), [])) ms.ms_transient) }, false)
+   | None -> None)
+
+(** val load_trees :
+    (bytes * tree) list -> cinfo option -> (bytes * tree) list option **)
+
+let rec load_trees ts info =
+  match ts with
+  | [] -> Some []
+  | p0 :: r ->
+    let (name, t) = p0 in
+    let target =
+      match info with
+      | Some ci ->
+        (match find (fun p1 -> beqb (fst p1) name) ci with
+         | Some p1 -> fst (snd p1)
+         | None -> Z0)
+      | None -> Z0
+    in
+    (match load_version t.t_disk target with
+     | Some t' ->
+       (match load_trees r info with
+        | Some r' -> Some ((name, t') :: r')
+        | None -> None)
+     | None -> None)
+
+(** val load_ms : mstore -> z -> mstore option **)
+
+let load_ms ms ver =
+  if Z.eqb ver Z0
+  then (match load_trees ms.ms_trees None with
+        | Some ts ->
+          Some { ms_trees = ts; ms_infos = ms.ms_infos; ms_latest =
+            ms.ms_latest; ms_last = (Z0, []); ms_prune = ms.ms_prune;
+            ms_transient = (map (fun p0 -> ((fst p0), [])) ms.ms_transient) }
+        | None -> None)
+  else (match vget ms.ms_infos ver with
+        | Some ci ->
+          (match load_trees ms.ms_trees (Some ci) with
+           | Some ts ->
+             Some { ms_trees = ts; ms_infos = ms.ms_infos; ms_latest =
+               ms.ms_latest; ms_last = (ver, (sort_infos ci)); ms_prune =
+               ms.ms_prune; ms_transient =
+               (map (fun p0 -> ((fst p0), [])) ms.ms_transient) }
+           | None -> None)
+        | None -> None)
+
+(** val reopen : mstore -> mstore option **)
+
+let reopen ms =
+  load_ms ms ms.ms_latest
+
+(** val upd_tree :
+    (bytes * tree) list -> bytes -> (kv -> kv) -> (bytes * tree) list **)
+
+let rec upd_tree ts name f =
+  match ts with
+  | [] -> []
+  | p0 :: r ->
+    let (n0, t) = p0 in
+    if beqb n0 name
+    then (n0, { t_disk = t.t_disk; t_work = (f t.t_work); t_ver =
+           t.t_ver }) :: r
+    else (n0, t) :: (upd_tree r name f)
+
+(** val ms_set : mstore -> bytes -> bytes -> bytes -> mstore **)
+
+let ms_set ms name k v =
+  { ms_trees = (upd_tree ms.ms_trees name (fun m -> aset m k v)); ms_infos =
+    ms.ms_infos; ms_latest = ms.ms_latest; ms_last = ms.ms_last; ms_prune =
+    ms.ms_prune; ms_transient = ms.ms_transient }
+
+(** val ms_delete : mstore -> bytes -> bytes -> mstore **)
+
+let ms_delete ms name k =
+  { ms_trees = (upd_tree ms.ms_trees name (fun m -> adel m k)); ms_infos =
+    ms.ms_infos; ms_latest = ms.ms_latest; ms_last = ms.ms_last; ms_prune =
+    ms.ms_prune; ms_transient = ms.ms_transient }
+
+(** val ms_tset : mstore -> bytes -> bytes -> bytes -> mstore **)
+
+let ms_tset ms name k v =
+  { ms_trees = ms.ms_trees; ms_infos = ms.ms_infos; ms_latest = ms.ms_latest;
+    ms_last = ms.ms_last; ms_prune = ms.ms_prune; ms_transient =
+    (map (fun p0 ->
+      if beqb (fst p0) name then ((fst p0), (aset (snd p0) k v)) else p0)
+      ms.ms_transient) }
+
+(** val ms_set_pruning : mstore -> prune -> mstore **)
+
+let ms_set_pruning ms p0 =
+  { ms_trees = ms.ms_trees; ms_infos = ms.ms_infos; ms_latest = ms.ms_latest;
+    ms_last = ms.ms_last; ms_prune = p0; ms_transient = ms.ms_transient }
+
+type qres =
+| QValue of bytes option
+| QNoVersion
+| QNoStore
+
+(** val ms_query : mstore -> bytes -> bytes -> z -> qres **)
+
+let ms_query ms name key h =
+  match find (fun p0 -> beqb (fst p0) name) ms.ms_trees with
+  | Some p0 ->
+    let (_, t) = p0 in
+    let height0 =
+      if Z.eqb h Z0
+      then if vhas t.t_disk (Z.sub t.t_ver (Zpos XH))
+           then Z.sub t.t_ver (Zpos XH)
+           else t.t_ver
+      else h
+    in
+    (match vget t.t_disk height0 with
+     | Some c -> QValue (aget c key)
+     | None -> QNoVersion)
+  | None -> QNoStore
+
+(** val pick : (bytes * tree) list -> bytes -> (bytes * tree) list **)
+
+let pick ts name =
+  filter (fun p0 -> beqb (fst p0) name) ts
+
+(** val reorder : (bytes * tree) list -> bytes list -> (bytes * tree) list **)
+
+let reorder ts order =
+  app (flat_map (pick ts) order)
+    (filter (fun p0 -> negb (existsb (beqb (fst p0)) order)) ts)
+
+(** val restore : bytes list -> (bytes * tree) list -> (bytes * tree) list **)
+
+let restore mount ts =
+  flat_map (pick ts) mount
+
+(** val commit_in_order :
+    mstore -> bytes list -> nat option -> (mstore * bool) option **)
+
+let commit_in_order ms order budget =
+  let mount = map fst ms.ms_trees in
+  let ms1 = { ms_trees = (reorder ms.ms_trees order); ms_infos = ms.ms_infos;
+    ms_latest = ms.ms_latest; ms_last = ms.ms_last; ms_prune = ms.ms_prune;
+    ms_transient = ms.ms_transient }
+  in
+  (match commit ms1 budget with
+   | Some p0 ->
+     let (ms2, crashed) = p0 in
+     Some ({ ms_trees = (restore mount ms2.ms_trees); ms_infos =
+     ms2.ms_infos; ms_latest = ms2.ms_latest; ms_last = ms2.ms_last;
+     ms_prune = ms2.ms_prune; ms_transient = ms2.ms_transient }, crashed)
+   | None -> None)
+
+(** val ms_init : bytes list -> prune -> mstore **)
+
+let ms_init names p0 =
+  { ms_trees = (map (fun n0 -> (n0, tree_empty)) names); ms_infos = [];
+    ms_latest = Z0; ms_last = (Z0, []); ms_prune = p0; ms_transient =
+    ((((Npos (XO (XO (XI (XO (XI (XI XH))))))) :: ((Npos (XO (XI (XO (XO (XI
+    (XI XH))))))) :: [])), []) :: []) }
+
 (** val be_bytes : nat -> z -> bytes **)
 
 let rec be_bytes n0 z0 =
@@ -3262,7 +3655,7 @@ let required_fee s gov_fee m =
    | Some p0 -> Z.mul base (snd p0)
    | None -> Z.mul base s.ap.a_fee_default)
 
-type dres =
+type dres0 =
 | DOk of state
 | DRejected of state
 | DHandlerErr of state
@@ -3319,7 +3712,7 @@ let ante s t =
                                        | None -> None)
            | None -> None))
 
-(** val deliver_tx : state -> tx -> dres **)
+(** val deliver_tx : state -> tx -> dres0 **)
 
 let deliver_tx s t =
   if (||) ((||) (negb (msg_basic_ok t.t_msg)) (Z.ltb t.t_fee Z0))
